@@ -42,12 +42,16 @@ var c20States = []string{"steady", "master_down", "replica_down", "zk_lost_on_ma
 func c20Gen(seed int64, idx int, tier string, jobSeed int64) c20Spec {
 	r := rand.New(rand.NewSource(seed))
 	sp := c20Spec{N: 2 + r.Intn(3), Casc: r.Intn(2) == 0, MgrSw: r.Intn(2) == 0, W: 1 + r.Intn(2)}
-	nd := len(c20Mutations) * 2
+	// quick: one round in which the states rotate over the mutations (the rotation depends on the run's seed: seeds 1-8
+	// together cover every mutation in every state) and one round in the steady state; thorough: every mutation in every
+	// one of the eight states, then the steady round
+	rounds := tierN(tier, 2, 9)
+	nd := len(c20Mutations) * rounds
 	switch {
 	case idx < nd:
 		// first round: the states rotate over the mutations (the rotation depends on the run's seed, every state occurs)
-		sp.Family, sp.Mutation, sp.State = "dangling", c20Mutations[idx%len(c20Mutations)], c20States[(idx+int(jobSeed%8+8))%len(c20States)]
-		if idx >= len(c20Mutations) {
+		sp.Family, sp.Mutation, sp.State = "dangling", c20Mutations[idx%len(c20Mutations)], c20States[(idx%len(c20Mutations)+idx/len(c20Mutations)+int(jobSeed%8+8))%len(c20States)]
+		if idx/len(c20Mutations) == rounds-1 {
 			sp.State = "steady" // every mutation is seen at least once by a manager that runs complete iterations
 		}
 		if sp.Mutation == "stream_from_unregistered" || sp.Mutation == "stream_from_self" || sp.Mutation == "stream_from_cycle" || sp.Mutation == "switch_to_cascade" || sp.Mutation == "cascade_config_garbage" {
@@ -75,7 +79,7 @@ func c20Gen(seed int64, idx int, tier string, jobSeed int64) c20Spec {
 var c20Loops = []string{"manager_on_marked_master", "manager_on_marked_replica_remarked", "manager_host_failed_over_and_back", "manager_on_marked_master_stuck", "manager_on_marked_master_registration_churn", "transient_master_glitch_under_manager_switchover"}
 
 func c20Units(tier string) int {
-	return len(c20Mutations)*2 + tierN(tier, 16, 200) + tierN(tier, 24, 400) + tierN(tier, 24, 200) + tierN(tier, 24, 160)
+	return len(c20Mutations)*tierN(tier, 2, 9) + tierN(tier, 16, 200) + tierN(tier, 24, 400) + tierN(tier, 24, 200) + tierN(tier, 24, 160)
 }
 
 // c20RaceUnits lists the units that run in the -race binary.
